@@ -111,6 +111,7 @@ def build_logic(am: AM, rec: Rec):
             scan_guard(g[1])
 
     guards["ge"] = lambda ctx, ev, params: ctx.get("v%d" % params["v"], 0) >= params["z"]
+    guards["pz"] = lambda ctx, ev, params: ctx.get("v0", 0) >= params
     for n in am.nodes:
         for a in n.entry + n.exit:
             scan_act(a)
@@ -172,7 +173,24 @@ def index_transitions(am: AM, machine, rec: Rec):
     return by_id
 
 
+class LSet(set):
+    """The active-state set, reporting membership changes made one state at a time."""
+    rec = None
+
+    def add(self, x):
+        self.rec.log.append(("enter", self.rec.ids[x.id]))
+        super().add(x)
+
+    def discard(self, x):
+        if x in self:
+            self.rec.log.append(("leave", self.rec.ids[x.id]))
+        super().discard(x)
+
+
 def instrument(interp, rec: Rec, engine):
+    ls = LSet(interp._active_state_nodes)
+    ls.rec = rec
+    interp._active_state_nodes = ls
     interp.use(make_plugin(rec))
     interp.subscribe(lambda it: rec.log.append(("notify", rec.cfg(it))))
     orig_sched = interp._schedule_state_tasks
@@ -256,6 +274,8 @@ def flat_log(log):
             out += [TS("err"), TN(o[1])]
         elif k == "can":
             out += [TS("can"), TN(1 if o[1] else 0)]
+        elif k in ("enter", "leave"):
+            out += [TS(k), TN(o[1])]
         i += 1
     return out
 
